@@ -316,3 +316,31 @@ def reach_self_check(prop, agg, runs_done, runs_budget):
         elif agg.probes.get(name, 0) == 0:
             missing.append(name)
     return missing
+
+
+class Watchdog:
+    """A harness phase that runs in the parent (minimisation, replay) must never turn a
+    hang into silence or into exit 0/1: after `seconds` of wall time all thread stacks are
+    dumped and the process exits with 2 (harness error)."""
+
+    def __init__(self, seconds, what):
+        import threading
+
+        self.t = threading.Timer(seconds, self.fire)
+        self.t.daemon = True
+        self.what = what
+
+    def fire(self):
+        try:
+            faulthandler.dump_traceback(file=sys.stderr, all_threads=True)
+            print(f"HARNESS-ERROR watchdog: {self.what} did not finish in time", file=sys.stderr, flush=True)
+        finally:
+            os._exit(2)
+
+    def __enter__(self):
+        self.t.start()
+        return self
+
+    def __exit__(self, *a):
+        self.t.cancel()
+        return False
